@@ -447,6 +447,50 @@ func ifBodyHas(rel, fn, condPart, stmt string) bool {
 	return found
 }
 
+// ifBodySeq: fn contains an `if` whose condition text contains condPart and whose body has, among its top-level
+// statements and in this order, statements with the texts pats[0], pats[1], … (a pattern ending in "…" matches a
+// statement that starts with the text before it).
+func ifBodySeq(rel, fn, condPart string, pats []string) bool {
+	fd := findFunc(rel, fn)
+	if fd == nil {
+		fatal("function %s not found in %s", fn, rel)
+	}
+	found := false
+	ast.Inspect(fd.Body, func(nd ast.Node) bool {
+		is, ok := nd.(*ast.IfStmt)
+		if !ok {
+			return true
+		}
+		var hd bytes.Buffer
+		if is.Init != nil {
+			printer.Fprint(&hd, token.NewFileSet(), is.Init)
+			hd.WriteString("; ")
+		}
+		printer.Fprint(&hd, token.NewFileSet(), is.Cond)
+		if !strings.Contains(hd.String(), condPart) {
+			return true
+		}
+		k := 0
+		for _, st := range is.Body.List {
+			if k == len(pats) {
+				break
+			}
+			var buf bytes.Buffer
+			printer.Fprint(&buf, token.NewFileSet(), st)
+			t := strings.TrimSpace(buf.String())
+			pat := pats[k]
+			if t == pat || (strings.HasSuffix(pat, "…") && strings.HasPrefix(t, strings.TrimSuffix(pat, "…"))) {
+				k++
+			}
+		}
+		if k == len(pats) {
+			found = true
+		}
+		return true
+	})
+	return found
+}
+
 // lockCovers: in fn's body (top-level statements), mu is locked by a statement `<mu>.Lock()` or `<mu>.RLock()`
 // and every top-level statement that mentions one of the shared names lies after it and before the matching
 // explicit unlock — or anywhere after it when the statement following the lock is `defer <mu>.(R)Unlock()`.
@@ -655,6 +699,21 @@ func main() {
 		fatal("bloom seed: %v", err)
 	}
 	o.nat("bloomSeed", seed, "leveldb/filter/bloom.go:bloomHash:seed")
+	{
+		// the seed every table access of the cache passes to murmur32: `murmur32(ns, key, 0xf00)`
+		var mseed constant.Value
+		for _, fn := range []string{"Cache.Get", "Cache.Delete", "Cache.Evict"} {
+			v, err := evalConst(callArg("leveldb/cache/cache.go", fn, "murmur32", 2), env{}, 0)
+			if err != nil {
+				fatal("murmur seed in %s: %v", fn, err)
+			}
+			if mseed != nil && !constant.Compare(mseed, token.EQL, v) {
+				fatal("murmur seed: %s passes %v, another call site %v", fn, v, mseed)
+			}
+			mseed = v
+		}
+		o.nat("cacheMurmurSeed", mseed, "leveldb/cache/cache.go:Cache.Get/Delete/Evict:murmur32 seed")
+	}
 
 	// straight-line expressions
 	o.b.WriteString("\n/-! Straight-line unsigned expressions, printed from the Go AST. -/\n\n")
@@ -716,6 +775,13 @@ func main() {
 		o.boolean("memMethodsAtomic", ok,
 			"every public `memdb.DB` method and every `dbIter` movement touches the skip-list arrays only between taking `mu` and releasing it (one critical section per call)")
 	}
+
+	// configuration of the cache interleaving model (Model/Cache.lean, `Shared.clearDel`)
+	o.boolean("cacheDeleteClearsDelFuncs",
+		ifBodySeq("leveldb/cache/cache.go", "mBucket.delete", "deleted",
+			[]string{"n.mu.Lock()", "delFuncs := n.delFuncs", "n.delFuncs = nil", "n.mu.Unlock()", "for _, f := range delFuncs {…"}) &&
+			!strings.Contains(funcText("leveldb/cache/cache.go", "mBucket.delete"), "range n.delFuncs"),
+		"`mBucket.delete` takes the delFuncs out of the removed node (`delFuncs := n.delFuncs; n.delFuncs = nil` between `n.mu.Lock()` and `n.mu.Unlock()`) before it calls them, and never ranges over `n.delFuncs` itself")
 
 	// order facts behind the configuration of the interleaving model (Model/Conc.lean, Cfg)
 	o.boolean("ordFlushCommitBeforeDrop", topStmtBefore("leveldb/db_compaction.go", "DB.memCompaction", `db.compactionCommit("memdb", rec)`, "db.dropFrozenMem()"),
